@@ -90,6 +90,26 @@ CScenario(row, fmt) ==
   [prop |-> "C18", key |-> "csv",
    steps |-> Begin0("csv") \o <<Ex(CsvScript(row, fmt)), W("OK2", VBool(TRUE)), W("M", VBool(FALSE)), W("OK3", VBool(TRUE)), W("NEED", VBool(FALSE)), W("ERR", VBool(FALSE)), W("T.count()", VInt(Len(row)))>>]
 
+\* other separator / quote choices (given as code points too; a NUL, a tab, an apostrophe), on a reduced set of rows
+Formats2 == << "0, 34", "44, 0", "9, 39", "\"|\"", "\";'\"", "59, 34", "32, 34" >>
+Rows2 == {<<f>> : f \in Fields \ {<<>>}} \cup {<<f, g>> : f \in FWords(1), g \in FWords(1)} \cup {<<<<2, 4>>, <<>>, <<5, 1>>>>, <<<<7>>, <<4, 2>>, <<1, 1>>>>}
+
+\* readln: lines of every length around the module's buffer size come back as they were written
+LineLens == <<0, 1, 10, 4094, 4095, 4096, 4097, 8191, 8192, 8193, 9000>>
+ReadlnScript ==
+  "function REP(N) return string is begin S = \"\"; C = \"0123456789abcdef\"; while S.count() + 16 <= N loop S.concat(C); end loop; while S.count() < N loop S.concat(\"x\"); end loop; return S; end;\n"
+  \o "F = file(\"@TMP@/vlines.dat\", \"w+\"); LENS = tab(0, 0);"
+  \o (LET J[i \in 0..Len(LineLens)] == IF i = 0 THEN "" ELSE J[i - 1] \o " LENS.concat(" \o ToString(LineLens[i]) \o ");" IN J[Len(LineLens)])
+  \o "\nforall N in LENS loop W = F.write(REP(N) + \"\\n\"); end loop; P = F.seekset(0);\n"
+  \* (a line longer than the module's buffer is delivered in pieces: they are put together until one ends the line)
+  \o "OKL = true; NL = 0; forall N in LENS loop ACC = \"\"; MORE = true; while MORE loop L = str(); R = F.readln(L); if R then ACC.concat(L); end if; "
+  \o "MORE = R and (L.count() == 0 or L.at(L.count() - 1) != 10); end loop; WANT = REP(N) + \"\\n\"; if ACC != WANT then OKL = false; else NL = NL + 1; end if; end loop;\n"
+  \o "L = str(); REOF = F.readln(L); ENDPOS = F.position(); CL = F.close();"
+ReadlnScenario ==
+  [prop |-> "C18", key |-> "readln",
+   steps |-> Begin0("file") \o <<Ex(ReadlnScript), W("OKL", VBool(TRUE)), W("NL", VInt(Len(LineLens))), W("REOF", VBool(FALSE)),
+                                 W("ENDPOS", VInt((LET S[i \in 0..Len(LineLens)] == IF i = 0 THEN 0 ELSE S[i - 1] + LineLens[i] + 1 IN S[Len(LineLens)])))>>]
+
 (* ---------------------------------- file ------------------------------- *)
 \* operations: [k, text of the call, argument]; every operation first re-positions with seekcur(0), as C streams require
 \* between reading and writing
@@ -153,7 +173,8 @@ QScenario(a, b) ==
 
 VARIABLE p
 Thorough == Env("VERIF_TIER", "quick") = "thorough"
-Init == p \in {[k |-> "Q", a |-> a, b |-> b] : a \in DOMAIN QV, b \in DOMAIN QV} \cup {[k |-> "F", h |-> h, m |-> m] : h \in FSeqs(IF Thorough THEN 4 ELSE 3), m \in {"w+", "wb+"}} \cup {[k |-> "C", r |-> r, f |-> f] : r \in Rows, f \in {"\",\"", "\";\""}} \cup {[k |-> "U", w |-> w] : w \in Words(IF Thorough THEN 4 ELSE 3, Len(Chars))} \cup {[k |-> "UB", w |-> w] : w \in {x \in Words(IF Thorough THEN 3 ELSE 2, Len(Chars) + Len(BadChars)) : \E j \in DOMAIN x : x[j] > Len(Chars)}}
+Init == p \in {[k |-> "Q", a |-> a, b |-> b] : a \in DOMAIN QV, b \in DOMAIN QV} \cup {[k |-> "F", h |-> h, m |-> m] : h \in FSeqs(IF Thorough THEN 4 ELSE 3), m \in {"w+", "wb+"}} \cup {[k |-> "C", r |-> r, f |-> f] : r \in Rows, f \in {"\",\"", "\";\""}}
+              \cup {[k |-> "C", r |-> r, f |-> Formats2[f]] : r \in (IF Thorough THEN Rows ELSE Rows2), f \in DOMAIN Formats2} \cup {[k |-> "RL"]} \cup {[k |-> "U", w |-> w] : w \in Words(IF Thorough THEN 4 ELSE 3, Len(Chars))} \cup {[k |-> "UB", w |-> w] : w \in {x \in Words(IF Thorough THEN 3 ELSE 2, Len(Chars) + Len(BadChars)) : \E j \in DOMAIN x : x[j] > Len(Chars)}}
 Next == UNCHANGED p
-Emit == PrintT("@@S " \o ToJson(IF p.k = "U" THEN UScenario(p.w) ELSE IF p.k = "C" THEN CScenario(p.r, p.f) ELSE IF p.k = "F" THEN FScenario(p.h, p.m) ELSE IF p.k = "Q" THEN QScenario(p.a, p.b) ELSE UBadScenario(p.w)))
+Emit == PrintT("@@S " \o ToJson(IF p.k = "RL" THEN ReadlnScenario ELSE IF p.k = "U" THEN UScenario(p.w) ELSE IF p.k = "C" THEN CScenario(p.r, p.f) ELSE IF p.k = "F" THEN FScenario(p.h, p.m) ELSE IF p.k = "Q" THEN QScenario(p.a, p.b) ELSE UBadScenario(p.w)))
 =============================================================================
